@@ -55,6 +55,23 @@ var tagPool = func() []string {
 
 const nExtra = 5
 
+// Tags(last): two cursors, a pool name and a string that is no tag; lastFrom[i] is the pool
+// index of the first name greater than lastNames[i]
+var lastNames = []string{tagPool[1], "m"}
+var lastFrom = func() []int {
+	var out []int
+	for _, l := range lastNames {
+		n := 0
+		for _, t := range tagPool {
+			if t <= l {
+				n++
+			}
+		}
+		out = append(out, n)
+	}
+	return out
+}()
+
 // applyExtra returns the descriptor of a node with the x-th variant of
 // "everything else a descriptor can carry".
 func applyExtra(d ocispec.Descriptor, x int) ocispec.Descriptor {
@@ -102,6 +119,7 @@ type target interface {
 // observation of one store, field by field (strings are canonical tokens)
 type obs struct {
 	Tags []string          // pool indices
+	From []string          // Tags(last) for the cursors of lastNames
 	RT   map[string]string // tag index -> "k.x" (descriptor up to the ref-name annotation)
 	RTa  map[string]string // tag index -> ref-name annotation token
 	RD   []string          // per node: D | B | N | X...
@@ -112,6 +130,9 @@ type obs struct {
 func (o *obs) String() string {
 	var b strings.Builder
 	b.WriteString("tags=" + strings.Join(o.Tags, ","))
+	for i, f := range o.From {
+		fmt.Fprintf(&b, ";tf%d=%s", lastFrom[i], f)
+	}
 	keys := make([]int, 0, len(o.RT))
 	for k := range o.RT {
 		i, _ := strconv.Atoi(k)
@@ -129,9 +150,9 @@ func (o *obs) String() string {
 }
 
 type world struct {
-	g       *dag.Graph
-	byDgst  map[digest.Digest]int
-	tagIdx  map[string]int
+	g      *dag.Graph
+	byDgst map[digest.Digest]int
+	tagIdx map[string]int
 }
 
 func newWorld(g *dag.Graph) *world {
@@ -215,6 +236,21 @@ func (w *world) observe(t target) *obs {
 		} else {
 			o.Tags = append(o.Tags, "?"+common.Hex(n))
 		}
+	}
+	for _, l := range lastNames {
+		var after []string
+		if err := t.Tags(ctx, l, func(tags []string) error { after = append(after, tags...); return nil }); err != nil {
+			after = []string{"!" + errTok(err)}
+		}
+		var ids []string
+		for _, n := range after {
+			if i, ok := w.tagIdx[n]; ok {
+				ids = append(ids, strconv.Itoa(i))
+			} else {
+				ids = append(ids, "?"+common.Hex(n))
+			}
+		}
+		o.From = append(o.From, strings.Join(ids, ","))
 	}
 	for i, n := range tagPool {
 		d, err := t.Resolve(ctx, n)
@@ -300,7 +336,7 @@ type rawIndex struct {
 }
 
 // validateLayout returns (all index entries point to existing blobs, list of (signature, message)).
-func validateLayout(dir string) (bool, [][2]string) {
+func validateLayout(dir string, ignore map[string]bool) (bool, [][2]string) {
 	var bad [][2]string
 	add := func(sig, msg string) { bad = append(bad, [2]string{sig, msg}) }
 	lb, err := os.ReadFile(filepath.Join(dir, "oci-layout"))
@@ -329,12 +365,15 @@ func validateLayout(dir string) (bool, [][2]string) {
 	blobsDir := filepath.Join(dir, "blobs")
 	algs, _ := os.ReadDir(blobsDir)
 	for _, a := range algs {
-		if !a.IsDir() {
+		if !a.IsDir() || ignore[filepath.Join(blobsDir, a.Name())] {
 			continue
 		}
 		alg := digest.Algorithm(a.Name())
 		files, _ := os.ReadDir(filepath.Join(blobsDir, a.Name()))
 		for _, f := range files {
+			if ignore[filepath.Join(blobsDir, a.Name(), f.Name())] {
+				continue
+			}
 			data, err := os.ReadFile(filepath.Join(blobsDir, a.Name(), f.Name()))
 			if err != nil {
 				add("layout-blob-read", f.Name()+": "+err.Error())
@@ -371,13 +410,34 @@ func validateLayout(dir string) (bool, [][2]string) {
 
 // ---------- tar of a layout directory ----------
 
-func writeTar(dir, out string) error {
+// writeTar archives the layout directory in one of several styles a tar of an image layout
+// comes in (internal/fs/tarfs must give the same view for all of them):
+//
+//	0 plain names, format chosen by archive/tar (USTAR; PAX for the long sha512 names)
+//	1 "./"-prefixed names with directory entries (tar -C dir .)
+//	2 PAX forced for every entry, no directory entries
+//	3 GNU format (long names through ././@LongLink)
+//	4 like 0, preceded by stale copies of index.json and oci-layout (appended archives: the last entry wins)
+//	5 like 1 with "//" and "/./" inside names (path.Clean)
+func writeTar(dir, out string, style int) error {
 	f, err := os.Create(out)
 	if err != nil {
 		return err
 	}
 	defer f.Close()
 	tw := tar.NewWriter(f)
+	run.Count(fmt.Sprintf("tar:style%d", style))
+	if style == 4 {
+		for _, st := range [][2]string{{"index.json", `{"schemaVersion":2,"manifests":[{"mediaType":"application/vnd.oci.image.manifest.v1+json","digest":"sha256:0000000000000000000000000000000000000000000000000000000000000000","size":7,"annotations":{"org.opencontainers.image.ref.name":"stale"}}]}`},
+			{"oci-layout", `{"imageLayoutVersion":"0.9.0"}`}} {
+			if err := tw.WriteHeader(&tar.Header{Typeflag: tar.TypeReg, Name: st[0], Mode: 0o644, Size: int64(len(st[1]))}); err != nil {
+				return err
+			}
+			if _, err := tw.Write([]byte(st[1])); err != nil {
+				return err
+			}
+		}
+	}
 	err = filepath.WalkDir(dir, func(p string, d fs.DirEntry, err error) error {
 		if err != nil {
 			return err
@@ -393,13 +453,28 @@ func writeTar(dir, out string) error {
 		if err != nil {
 			return err
 		}
+		if fi.IsDir() && (style == 2 || style == 3) {
+			return nil
+		}
 		hdr, err := tar.FileInfoHeader(fi, "")
 		if err != nil {
 			return err
 		}
 		hdr.Name = filepath.ToSlash(rel)
 		if len(hdr.Name) > 100 && fi.Mode().IsRegular() {
-			run.Count("tar:blob-name-over-100-bytes(PAX)")
+			run.Count("tar:blob-name-over-100-bytes")
+		}
+		switch style {
+		case 1:
+			hdr.Name = "./" + hdr.Name
+		case 2:
+			hdr.Format = tar.FormatPAX
+			hdr.PAXRecords = map[string]string{"VERIF.note": "x"}
+		case 3:
+			hdr.Format = tar.FormatGNU
+		case 5:
+			hdr.Name = "./" + strings.Replace(hdr.Name, "/", "//", 1)
+			hdr.Name = strings.Replace(hdr.Name, "//", "/.//", 1)
 		}
 		if fi.IsDir() {
 			hdr.Name += "/"
@@ -437,6 +512,12 @@ type runner struct {
 	out    []string
 	failed map[string]bool
 	hung   bool
+	strays []strayFile // files put under blobs/ that are no content of the store
+}
+
+type strayFile struct {
+	tok  string // x<kind><id>
+	path string
 }
 
 func (r *runner) fail(sig, msg string) {
@@ -531,9 +612,11 @@ func (r *runner) exec(op string) string {
 				r.synced = false
 			}
 			return errTok(err)
-		case <-time.After(20 * time.Second):
+		case <-time.After(300 * time.Second):
+			// GC works for milliseconds; the bound is this generous because a loaded machine
+			// stalled a run for more than 20 s once (no wall-clock false alarms)
 			r.hung = true
-			r.fail("gc-hang", "GC did not return within 20 s")
+			r.fail("gc-hang", "GC did not return within 300 s")
 			return "hang"
 		}
 	case 'S':
@@ -553,6 +636,42 @@ func (r *runner) exec(op string) string {
 		return "ok"
 	case 'C':
 		return r.checkpoint()
+	case 'I': // node bytes written as a blob file behind the store's back
+		k, _ := strconv.Atoi(arg)
+		n := g.Nodes[k]
+		p := filepath.Join(r.dir, "blobs", n.Desc.Digest.Algorithm().String(), n.Desc.Digest.Encoded())
+		if _, err := os.Stat(p); err != nil {
+			if err := os.MkdirAll(filepath.Dir(p), 0o777); err != nil {
+				panic(err)
+			}
+			if err := os.WriteFile(p, n.Bytes, 0o444); err != nil {
+				panic(err)
+			}
+		}
+		return "ok"
+	case 'X': // a file under blobs/ that is no content
+		id := arg[1:]
+		var p string
+		blobs := filepath.Join(r.dir, "blobs")
+		switch arg[0] {
+		case 'v':
+			p = filepath.Join(blobs, "sha256", digest.FromString("stray-valid-"+id).Encoded())
+		case 'i':
+			p = filepath.Join(blobs, "sha256", "stray-"+id+".tmp")
+		case 'a':
+			p = filepath.Join(blobs, "sha999", digest.FromString("stray-alg-"+id).Encoded())
+			r.strays = append(r.strays, strayFile{"-", filepath.Dir(p)})
+		case 'f':
+			p = filepath.Join(blobs, "stray-"+id)
+		}
+		if err := os.MkdirAll(filepath.Dir(p), 0o777); err != nil {
+			panic(err)
+		}
+		if err := os.WriteFile(p, []byte("not content "+id), 0o444); err != nil {
+			panic(err)
+		}
+		r.strays = append(r.strays, strayFile{"x" + arg, p})
+		return "ok"
 	}
 	panic("bad op " + op)
 }
@@ -570,7 +689,7 @@ func (r *runner) checkpoint() string {
 		{"oci.New", func() (target, error) { return oci.New(r.dir) }},
 		{"NewFromFS(os.DirFS)", func() (target, error) { return oci.NewFromFS(ctx, os.DirFS(r.dir)) }},
 		{"NewFromTar", func() (target, error) {
-			if err := writeTar(r.dir, tarPath); err != nil {
+			if err := writeTar(r.dir, tarPath, len(r.h.Ops)%6); err != nil {
 				panic(err)
 			}
 			return oci.NewFromTar(ctx, tarPath)
@@ -615,6 +734,7 @@ func (r *runner) checkpoint() string {
 			}
 		}
 		cmp("reopen-tags", o.Tags, orig.Tags)
+		cmp("reopen-tags-last", o.From, orig.From)
 		cmp("reopen-resolve-tag", o.RT, orig.RT)
 		cmp("reopen-resolve-digest", o.RD, orig.RD)
 		cmp("reopen-exists-fetch", o.E, orig.E)
@@ -633,7 +753,20 @@ func (r *runner) checkpoint() string {
 		}
 	}
 	os.Remove(tarPath)
-	all, bad := validateLayout(r.dir)
+	ignore := map[string]bool{}
+	var xs []string
+	for _, st := range r.strays {
+		ignore[st.path] = true
+		if st.tok == "-" {
+			continue
+		}
+		if _, err := os.Stat(st.path); err == nil {
+			xs = append(xs, st.tok+"=1")
+		} else {
+			xs = append(xs, st.tok+"=0")
+		}
+	}
+	all, bad := validateLayout(r.dir, ignore)
 	if r.synced {
 		for _, b := range bad {
 			r.fail(b[0], b[1])
@@ -646,7 +779,7 @@ func (r *runner) checkpoint() string {
 	if all {
 		v = "v1"
 	}
-	return "C[" + strings.Join(parts, "|") + "|" + v + "]"
+	return "C[" + strings.Join(parts, "|") + "|" + v + "|x:" + strings.Join(xs, ",") + "]"
 }
 
 // ---------- generator ----------
@@ -712,7 +845,9 @@ func (r *runner) do(op string) {
 	r.h.Ops = append(r.h.Ops, op) // before exec: a replay written by the oracle includes the failing check point
 	res := r.exec(op)
 	r.out = append(r.out, res)
-	if op[0] != 'C' {
+	if op[0] == 'X' {
+		run.Count("op:X" + op[1:2])
+	} else if op[0] != 'C' {
 		run.Count("op:" + op[:1] + ":" + strings.SplitN(res, ":", 2)[0])
 	}
 }
@@ -742,7 +877,7 @@ func (r *runner) generate(rnd *common.Rand, nops int) {
 		switch {
 		case c < 40: // push
 			k := common.Pick(rnd, real)
-			if r.h.AutoGC {
+			if rnd.Chance(1, 3) {
 				// closure, children first
 				var order []int
 				seen := map[int]bool{}
@@ -766,7 +901,7 @@ func (r *runner) generate(rnd *common.Rand, nops int) {
 			} else {
 				r.do(fmt.Sprintf("P%d", k))
 			}
-		case c < 62: // tag
+		case c < 61: // tag
 			k := common.Pick(rnd, real)
 			if p, ok := pickPresent(); ok && rnd.Chance(9, 10) {
 				k = p
@@ -780,25 +915,12 @@ func (r *runner) generate(rnd *common.Rand, nops int) {
 				a = strconv.Itoa(rnd.Intn(len(tagPool)))
 			}
 			t := rnd.Intn(len(tagPool))
-			if r.h.AutoGC {
-				// moving a tag to another node leaves a stale entry in resolver.Memory's tag
-				// set, which only isTagged (the AutoGC cascade, C09) can see: AutoGC
-				// histories re-tag the same node only; tags move freely in the others
-				for try := 0; try < 4; try++ {
-					if d, err := r.store.Resolve(ctx, tagPool[t]); err == nil && d.Digest != g.Nodes[k].Desc.Digest {
-						t = rnd.Intn(len(tagPool))
-					}
-				}
-				if d, err := r.store.Resolve(ctx, tagPool[t]); err == nil && d.Digest != g.Nodes[k].Desc.Digest {
-					continue
-				}
-			}
 			ref := strconv.Itoa(t)
 			if rnd.Chance(1, 10) {
 				ref = "d"
 			}
 			r.do(fmt.Sprintf("T%d:%d:%s:%s", k, x, a, ref))
-		case c < 70: // untag
+		case c < 69: // untag
 			if rnd.Chance(1, 8) {
 				r.do(fmt.Sprintf("V%d", common.Pick(rnd, real)))
 			} else {
@@ -814,59 +936,47 @@ func (r *runner) generate(rnd *common.Rand, nops int) {
 				}
 				r.do(fmt.Sprintf("U%d", t))
 			}
-		case c < 80: // delete
-			if r.h.AutoGC {
-				// only nodes without a stored predecessor (cascades through referrers and
-				// through missing children belong to C09)
-				var cands []int
-				for _, k := range real {
-					if !r.present(k) {
-						continue
-					}
-					has := false
-					for _, p := range g.Preds(k) {
-						if r.present(p) {
-							has = true
-						}
-					}
-					if !has {
-						cands = append(cands, k)
-					}
-				}
-				if len(cands) > 0 {
-					r.do(fmt.Sprintf("D%d", common.Pick(rnd, cands)))
-				}
-			} else {
+		case c < 79: // delete
+			{
 				k := common.Pick(rnd, real)
 				if p, ok := pickPresent(); ok && rnd.Chance(4, 5) {
 					k = p
 				}
+				if r.h.AutoGC {
+					for _, p := range g.Preds(k) {
+						if g.Nodes[p].Subject == k && r.present(p) {
+							run.Count("delete:autogc-with-stored-referrer")
+							break
+						}
+					}
+				}
 				r.do(fmt.Sprintf("D%d", k))
 			}
-		case c < 84: // GC
-			for round := 0; round < 6; round++ {
-				off := r.gcOffenders()
-				if len(off) == 0 {
-					break
-				}
-				k := common.Pick(rnd, off)
-				if rnd.Chance(2, 3) {
-					r.do(fmt.Sprintf("T%d:0:-:%d", k, rnd.Intn(len(tagPool))))
-				} else {
-					r.do(fmt.Sprintf("D%d", k))
-				}
+		case c < 83: // GC
+			if len(r.gcOffenders()) > 0 {
+				// untagged manifests whose subject is outside the tagged closure (subject
+				// chains, referrers of referrers, referrers of garbage)
+				run.Count("gc:with-untagged-subject-chains")
 			}
-			if len(r.gcOffenders()) == 0 {
-				r.do("G")
-			} else {
-				run.Count("gc-skipped-by-guard")
-			}
-		case c < 88: // SaveIndex
+			r.do("G")
+		case c < 87: // SaveIndex
 			r.do("S")
-		case c < 91: // reopen read-write (only when index.json is current)
+		case c < 90: // reopen read-write (only when index.json is current)
 			if r.synced {
 				r.do("R")
 			}
+		case c < 92: // a layer appears in blobs/ without Push
+			var ls []int
+			for _, k := range real {
+				if !g.Nodes[k].IsManifest() {
+					ls = append(ls, k)
+				}
+			}
+			if len(ls) > 0 {
+				r.do(fmt.Sprintf("I%d", common.Pick(rnd, ls)))
+			}
+		case c < 94: // stray file under blobs/
+			r.do(fmt.Sprintf("X%s%d", common.Pick(rnd, []string{"v", "v", "i", "a", "f"}), len(r.strays)))
 		default:
 			r.do("C")
 		}
@@ -892,7 +1002,7 @@ func caseLine(h *history, g *dag.Graph) string {
 	if meta == "" {
 		meta = "-"
 	}
-	fmt.Fprintf(&b, "H %s %s %s %d %d", meta, bit(h.AutoSave), bit(h.AutoGC), len(g.Nodes), len(tagPool))
+	fmt.Fprintf(&b, "H %s %s %s %d %d %d,%d", meta, bit(h.AutoSave), bit(h.AutoGC), len(g.Nodes), len(tagPool), lastFrom[0], lastFrom[1])
 	for _, n := range g.Nodes {
 		fl := "b"
 		if n.IsManifest() {
@@ -965,7 +1075,9 @@ func (r *runner) finish() {
 }
 
 func generateHistory(seed uint64, index int, thorough bool) {
-	rnd := common.NewRand(seed*1000003 + uint64(index))
+	// per-history stream: the seed of NewRand is linear in its argument (consecutive arguments
+	// give shifted copies of one stream), so go through one mixed output first
+	rnd := common.NewRand(common.NewRand(seed*1000003+uint64(index)).U64() ^ uint64(index)*0x2545F4914F6CDD1D)
 	h := &history{AutoSave: rnd.Chance(7, 10), AutoGC: rnd.Chance(2, 5)}
 	if index%16 == 15 { // small scope
 		h.AutoSave, h.AutoGC = index%32 == 15, false
@@ -975,8 +1087,6 @@ func generateHistory(seed uint64, index int, thorough bool) {
 	if index%16 == 15 {
 		o.MinNodes, o.MaxNodes = 2, 5
 	}
-	o.Subjects = !h.AutoGC
-	o.Foreign = !h.AutoGC // a never-stored child in the graph makes the AutoGC cascade fail (C09)
 	g := dag.Random(rnd, o)
 	// descriptor-consistent universe: a digest is used under one media type only (no twins);
 	// one or two extra blobs are addressed by sha512 (long names: PAX headers in the tar)
@@ -1037,6 +1147,8 @@ func replay(path string) {
 				panic(err)
 			}
 			replayHistory(h)
+		} else if t, ok := c["tarfs"]; ok {
+			replayTarfs(t)
 		} else if m, ok := c["meta"]; ok {
 			f := strings.Split(m, ".")
 			seed, _ := strconv.ParseUint(f[0], 10, 64)
@@ -1054,8 +1166,13 @@ func main() {
 		replay(run.Replay)
 		return
 	}
-	n := run.Scale(1200, 12000)
+	n := run.Scale(1200, 10000)
 	for i := 0; i < n; i++ {
 		generateHistory(run.Seed, i, run.Thorough())
+	}
+	// internal/fs/tarfs on its own (Model/TarFS.v)
+	trnd := common.NewRand(common.NewRand(run.Seed).U64() ^ 0x7a7f5)
+	for i := 0; i < run.Scale(1500, 30000); i++ {
+		tarfsCase(trnd)
 	}
 }
